@@ -70,6 +70,16 @@ def make_files(d, thorough):
     V.write_pvtu(pv, ["piece_0.vtu", "piece_1.vtu"], [("p", "Float64", 1, [])], [("c", "Float64", 1, [])])
     out.append(("pvtu/index", pv, [pa, pb]))
     out.append(("pvtu/piece", pb, [pv, pa]))        # cut a piece, compare through the index file
+    # structured parallel: 2 x 1 pieces of an image grid with 3 x 1 cells
+    ia, ib = os.path.join(d, "ipiece_0.vti"), os.path.join(d, "ipiece_1.vti")
+    V.write_vti(ia, [0, 1, 0, 1, 0, 0], [0.0, 0.0, 0.0], [1.0, 1.0, 1.0], None, [("p", "Float64", 1, [0.0, 1.0, 4.0, 5.0])],
+                [("c", "Float64", 1, [10.0])], V.Cfg("ascii"), whole_extent=[0, 3, 0, 1, 0, 0])
+    V.write_vti(ib, [1, 3, 0, 1, 0, 0], [0.0, 0.0, 0.0], [1.0, 1.0, 1.0], None, [("p", "Float64", 1, [1.0, 2.0, 3.0, 5.0, 6.0, 7.0])],
+                [("c", "Float64", 1, [20.0, 30.0])], V.Cfg("ascii"), whole_extent=[0, 3, 0, 1, 0, 0])
+    pvi = os.path.join(d, "par.pvti")
+    V.write_pstructured(pvi, "ImageData", [0, 3, 0, 1, 0, 0], [([0, 1, 0, 1, 0, 0], "ipiece_0.vti"), ([1, 3, 0, 1, 0, 0], "ipiece_1.vti")],
+                        [("p", "Float64", 1, [])], [("c", "Float64", 1, [])], extra_attrs=' Origin="0 0 0" Spacing="1 1 1"')
+    out.append(("pvti/index", pvi, [ia, ib]))
     # sequence
     s0, s1 = os.path.join(d, "step_0.vtu"), os.path.join(d, "step_1.vtu")
     V.write_vtu(s0, PTS[:4], [(9, [0, 1, 2, 3])], [("p", "Float64", 1, [0.5, 1.5, 2.5, 3.5])], [], V.Cfg("ascii"))
@@ -92,7 +102,7 @@ def end_of_data(label, data: bytes) -> int:
     if b"<AppendedData" in data:
         i = data.rfind(b"</AppendedData>")
         return len(data[:i].rstrip(b" \n"))
-    if label.startswith(("pvtu/index",)):
+    if label.startswith(("pvtu/index", "pvti/index")):
         i = data.rfind(b"<Piece ")
         return data.find(b"/>", i) + 2
     if label.startswith("pvd/index"):
